@@ -22,42 +22,67 @@ func init() {
 }
 
 type clientModel struct {
-	Send    *ssa.Function
-	Recv    *ssa.Function
-	Write   *ssa.Call
-	Marshal *ssa.Call
-	Read    *ssa.Call
-	Decode  *decodeSite
-	CallLit *ssa.Alloc // the marshalled call struct
+	Send      *ssa.Function // inlined view (package helpers inlined, exported API kept as calls)
+	SendBuilt *ssa.Function
+	Recv      *ssa.Function
+	Write     *ssa.Call
+	Marshal   *ssa.Call
+	Read      *ssa.Call
+	Decode    *decodeSite
+	CallLit   *ssa.Alloc // the marshalled call struct
 }
 
 func buildClientModel(p *Prog, ro *Roles) *clientModel {
 	T := ro.T
 	cm := &clientModel{}
+	// Send: the function of package varlink that - with the package's unexported helpers inlined (a shared frame
+	// writer, an error-mapping helper) - writes on the client connection wrapper; the exported API stays calls, so
+	// Call/Upgrade are not mistaken for it
+	keepAPI := func(callee *ssa.Function) bool {
+		return fnPkgPath(callee) != pkgVarlink || callee.Object() != nil && callee.Object().Exported()
+	}
+	type cand struct {
+		f, v *ssa.Function
+		w    *ssa.Call
+	}
+	var cands []cand
 	for _, f := range p.FuncsOf(pkgVarlink) {
 		if f.Parent() != nil {
 			continue
 		}
-		for _, cs := range callsIn(f, false) {
+		v := p.Inlined(f, keepAPI)
+		for _, cs := range callsIn(v, false) {
 			if isProtoWrite(cs) && isClientConnRecv(recvOf(cs)) && !ro.rootedInCall(recvOf(cs)) {
 				if c, ok := cs.Instr.(*ssa.Call); ok {
-					cm.Send, cm.Write = f, c
+					cands = append(cands, cand{f, v, c})
 				}
 			}
+		}
+	}
+	for _, c := range cands {
+		helper := false
+		for _, d := range cands {
+			if d.f != c.f && ro.CG.Reach([]*ssa.Function{d.f}, false)[c.f] {
+				helper = true
+			}
+		}
+		if !helper {
+			cm.Send, cm.SendBuilt, cm.Write = c.v, c.f, c.w
 		}
 	}
 	if cm.Send == nil {
 		return cm
 	}
+	ro.CG.AddView(cm.Send)
 	for _, cs := range callsNamed(cm.Send, false, "json.Marshal") {
 		cm.Marshal, _ = cs.Instr.(*ssa.Call)
 	}
 	if cm.Marshal != nil {
 		cm.CallLit = unwrapAllocThroughLoad(cm.Marshal.Call.Args[0])
 	} else {
-		// the encoder is reached through a repo helper: the call of Send that hands a struct literal to a function from
-		// which json.Marshal / Encoder.Encode is reachable
-		cg := BuildCallGraph(p)
+		// the encoder is reached through a helper outside the view: the call of Send that hands a struct literal to a
+		// function from which json.Marshal / Encoder.Encode is reachable
+		cg := ro.CG
 		for _, cs := range callsIn(cm.Send, false) {
 			c, ok := cs.Instr.(*ssa.Call)
 			t := cs.Common.StaticCallee()
@@ -85,8 +110,8 @@ func buildClientModel(p *Prog, ro *Roles) *clientModel {
 	// the receive function: what Send returns as its function result - a closure of Send or a method value
 	// (c.receiveReply) - found through the returned MakeClosure, not by name
 	var recvCands []*ssa.Function
-	recvCands = append(recvCands, cm.Send.AnonFuncs...)
-	for _, rv := range returnedValues(cm.Send, 0) {
+	recvCands = append(recvCands, cm.SendBuilt.AnonFuncs...)
+	for _, rv := range returnedValues(cm.SendBuilt, 0) {
 		mc, ok := rv.Val.(*ssa.MakeClosure)
 		if !ok {
 			continue
@@ -360,8 +385,8 @@ func runC11(r *Run, p *Prog) {
 		n := 0
 		for _, rv := range returnedValues(fn, fn.Signature.Results().Len()-1) {
 			fs := T.FactsAt(rv.Ret.Block())
-			if !hasFact(fs, "NE", errT, "nil") {
-				continue
+			if !hasFact(fs, "NE", errT, "nil") && !hasFact(fs, "EQ", errT, "*(global:io.EOF)") {
+				continue // (err == io.EOF implies err != nil)
 			}
 			n++
 			isEOF := hasFact(fs, "EQ", errT, "*(global:io.EOF)")
